@@ -92,6 +92,37 @@ nothing translates exactly as before):
   closed, where classes and dataclasses take the element type as an argument; type names with a
   suffix (`Entry2`, `Candidate2`, `elem2`) denote the instance at the second element type, calls
   are emitted as `(@gen_m U eqb2)` (the equality only if the callee uses it: tracked).
+
+Third extension (used by `translator/eval_gen.py`; every item is switched on by a declaration or a flag of
+the `Unit`, a unit that sets none translates exactly as before):
+
+* `Unit.bintree(name, ident)`: a type of immutable binary trees (ete3 nodes with no or exactly two children):
+  an `Inductive` whose nodes carry an identifier of the Coq type `ident` (the identity of the Python object);
+  `x.is_leaf()` is `<name>_is_leaf x`; `a, b = x.children` is a `match` (`ValueError` on a leaf: too few values
+  to unpack); `for x in t.traverse("preorder")` is a `Fixpoint` on the tree whose local continuation `next'`
+  (what follows the body for this node) runs the loop on the first, then on the second subtree (`break` aborts);
+* `FunSpec.rec_on`: a method that calls itself on a child of its tree parameter is a `Fixpoint ... {struct p}`
+  (the argument must be a variable bound by unpacking `.children` of the parameter or of such a variable, and
+  none of them may be reassigned; Coq's guard checker re-checks the decrease); `node=None` on such a parameter is
+  accepted when the unit sets `passed_defaults` (every translated call passes it);
+* `Unit.mapping(name, tree, value)`: a dictionary keyed by the nodes of a tree that is only read and total on the
+  nodes looked up: a function from identifiers, `d[x]` is `d (<tree>_id x)` (KeyError is not modelled: the driver
+  states totality as an assumption); a local list variable bound once to `d[x]` and never updated is allowed;
+  `Unit.enumdict(name, {"Enum.MEMBER": type})`: a dictionary read with literal enum keys: a `Record`;
+  `Unit.nodedict(name, tree, value, eqb)`: a local dictionary `{x: e}`, `d[x] = e`, `d[x]` (`KeyError` when
+  absent): the list of its stores, newest first, looked up with `dict_get`; `a = d[x] = e` is `a = e; d[x] = a`;
+* `Unit.methods_of(opaque type, {method: (argument types, result type, Coq function)}, call=..)`: `x.m(..)` and
+  `x(..)` on a value of an opaque type are the declared (pure, total) functions applied to the object and the
+  arguments; `Unit.numbers(opaque type, add, of_Z)`: `a + b` with an operand of that type (the other one the same
+  type or an int, injected) and an int where such a number is expected; `products`: `a * b`, `min(a, b)` on ints,
+  an int literal beside an int in `a if c else b`; `set_ops`: `set(xs)` (`set_of_list`) and `a <= b` on sets
+  (`set_subset`); `bool_asserts`: `assert c` (`AssertionError` when false); `imported` accepts `..pkg.mod`;
+* `ClassSpec.frozen` / `base`: `@dataclass(frozen=True[, repr=..]) class C[(B)]` with methods: the fields are the
+  annotated attributes (those of `B` first), `x.field` on a value of the class is the projection, every translated
+  method is `pure` and may call the others anywhere in an expression (hoisted in evaluation order: nothing can be
+  modified, only the first error matters); `FunSpec.owner = B`: the method inherited from `B`, translated again
+  for the fields of `C` under its own alias -- `self.m` reaches it only if `C` does not define `m` (checked),
+  `super().m(..)` (in a method defined by `C`) always does.
 """
 from __future__ import annotations
 
@@ -114,7 +145,7 @@ Inductive flow (S R : Type) : Type := Next (s : S) | Ret (r : R) | Fail (e : err
 Arguments Ok {R} r.  Arguments Err {R} e.
 Arguments Next {S R} s.  Arguments Ret {S R} r.  Arguments Fail {S R} e.
 """
-EXTRA_ERRORS = ("AssertionError", "TypeError", "NegativePower")
+EXTRA_ERRORS = ("AssertionError", "TypeError", "NegativePower", "ValueError", "KeyError")
 HELPERS = {
     "list_set": """\
 (* xs[i] = v at a position counted from the front; None = IndexError *)
@@ -141,7 +172,19 @@ Definition zset {X : Type} (l : list X) (i : Z) (v : X) : option (list X) :=
     "is_empty": """\
 Definition is_empty {X : Type} (l : list X) : bool := match l with nil => true | cons _ _ => false end.""",
 }
+HELPERS["dict_get"] = """\
+(* d[k] on a dictionary kept as the list of its stores, newest first; None = KeyError *)
+Fixpoint dict_get {K V : Type} (keqb : K -> K -> bool) (d : list (K * V)) (k : K) {struct d} : option V :=
+  match d with
+  | nil => None
+  | cons (k', v) d' => if keqb k k' then Some v else dict_get keqb d' k
+  end."""
 HELPER_DEPS = {"nset": ["list_set"], "zget": ["zpos"], "zset": ["zpos", "list_set"]}
+SET_DEFS2 = """\
+(* set(xs): the elements of xs, each once, in order of first occurrence; a <= b: every element of a is in b *)
+Definition set_of_list (l : list A) : list A := fold_left (fun s x => set_add x s) l nil.
+Definition set_subset (a b : list A) : bool := forallb (fun x => set_mem x b) a.
+"""
 PY_MIN = "Definition py_min (a b : A) : A := if ltb b a then b else a."
 SET_DEFS = """\
 (* a Python set of elements: a duplicate-free list in insertion order; s.add(x) appends x unless present *)
@@ -250,6 +293,8 @@ class FunSpec:
     alias: Optional[str] = None           # name of the generated definition (default: the Python name)
     rec_fuel: Optional[str] = None        # fuel (Coq `nat` term over the parameters) of a self-recursive method
     pure: bool = False                    # method that only reads its object (checked): callable on any object, anywhere
+    rec_on: Optional[str] = None          # self-recursive method: the tree parameter the recursion descends on (structural)
+    owner: Optional[str] = None           # class whose body holds the definition (an inherited method; default: the class itself)
 
 
 @dataclass
@@ -264,6 +309,8 @@ class ClassSpec:
     short: str                            # Record `<short>_state`, constructor `mk_<short>`, projections `<short>_<field>`
     fields: Dict[str, str]                # attribute -> declared type, in the order of the Record
     methods: List[FunSpec] = field(default_factory=list)   # in translation order (callees first)
+    frozen: bool = False                  # `@dataclass(frozen=True)` class with methods: fields are the annotated attributes
+    base: Optional[str] = None            # frozen classes: the one base class (its fields come first, its methods are inherited)
 
 
 @dataclass
@@ -288,6 +335,18 @@ def _is_self_call(n) -> bool:
         and n.func.value.id == "self"
 
 
+def _is_super_call(n) -> bool:
+    """`super().m(..)`"""
+    return isinstance(n, ast.Call) and isinstance(n.func, ast.Attribute) and isinstance(n.func.value, ast.Call) \
+        and isinstance(n.func.value.func, ast.Name) and n.func.value.func.id == "super" and not n.func.value.args \
+        and not n.func.value.keywords
+
+
+def _mkey(m: "FunSpec") -> str:
+    """Key of a translated method within its class: an inherited definition is `<name>@<owner>`."""
+    return m.name if m.owner is None else f"{m.name}@{m.owner}"
+
+
 def _base_name(n):
     while isinstance(n, ast.Subscript):
         n = n.value
@@ -304,6 +363,7 @@ class _Fun:
         self.fieldvars: List[str] = []
         self.callpos: set = set()
         self.in_rec = False
+        self.subtrees: set = set()            # variables bound to strict subtrees of the recursion parameter
         if cls is not None:
             self.spec = replace(spec, types=dict(spec.types))
             for f, t in cls.fields.items():
@@ -354,6 +414,8 @@ class _Fun:
             self.abort(node, f"the name {name!r} collides with a name used by the generated Coq text")
         if name not in self.spec.types:
             self.abort(node, f"no declared type for variable {name!r}")
+        if self.unit is not None and name in self.unit.taken:
+            self.abort(node, f"the name {name!r} collides with a name declared by the translation unit")
         return self.spec.types[name]
 
     def vtype(self, node, name: str, env) -> str:
@@ -382,13 +444,13 @@ class _Fun:
                              and not any(m.name == n.func.attr and m.pure for m in self.unit.done_methods.get(
                                  self.kind(self.spec.types[n.func.value.id])[1], []))):
                     out.add(n.func.value.id)     # s.add(e) on a set / a method call on an object
-                elif _is_self_call(n):
+                elif _is_self_call(n) and not (self.cls is not None and self.cls.frozen):
                     out.update(self.fieldvars)
         return out
 
     def used(self, nodes) -> set:
         out = _names(nodes)
-        if any(_is_self_call(n) for s in nodes for n in ast.walk(s)):
+        if any(_is_self_call(n) or _is_super_call(n) for s in nodes for n in ast.walk(s)):
             out.update(self.fieldvars)
         return out
 
@@ -445,6 +507,8 @@ class _Fun:
             return self.const_of(e.operand)[0]
         elif isinstance(e, ast.IfExp) and self.unit is not None:
             a, b = self.ntype(e.body, env), self.ntype(e.orelse, env)
+            if "lit" in (a, b) and (a in ("N", "Z") or b in ("N", "Z")) and self.unit.products:
+                return b if a == "lit" else a        # an int literal beside an int
             if a != b or a in ("lit", "none", "newlist", "newset") or a.startswith("new "):
                 self.abort(e, f"conditional expression with branches of type {a} and {b}")
             return a
@@ -454,10 +518,15 @@ class _Fun:
             k, name, sfx = self.kind(self.ntype(e.value, env))
             if k == "data" and e.attr in self.unit.datas[name].fields:
                 return inst_type(self.unit.datas[name].fields[e.attr], sfx, self.unit.parametric())
+            if k == "class" and self.unit.classes[name].frozen and not sfx and e.attr in self.unit.classes[name].fields:
+                return self.unit.classes[name].fields[e.attr]
             self.abort(e, "attribute access other than <enum>.<member> or <dataclass value>.<declared field>")
         elif isinstance(e, ast.Set) and self.unit is not None and len(e.elts) == 1 \
                 and not isinstance(e.elts[0], ast.Starred):
             return "newset"
+        elif isinstance(e, ast.Dict) and self.unit is not None and self.unit.nodedicts and len(e.keys) == 1 \
+                and e.keys[0] is not None:
+            return "newdict"
         elif isinstance(e, ast.Name) and isinstance(e.ctx, ast.Load):
             t = self.vtype(e, e.id, env)
             if e.id not in env:
@@ -468,11 +537,16 @@ class _Fun:
         elif isinstance(e, ast.UnaryOp) and isinstance(e.op, ast.USub) and isinstance(e.operand, ast.Constant) \
                 and type(e.operand.value) is int:
             return "Z"
+        elif isinstance(e, ast.BinOp) and isinstance(e.op, ast.Add) and self.ext_sum(e, env) is not None:
+            return self.ext_sum(e, env)
         elif isinstance(e, ast.BinOp) and type(e.op) in BINOPS:
             if isinstance(e.op, (ast.LShift, ast.RShift)):
                 return self.join(e, self.ntype(e.left, env), "lit")
             t = self.join(e, self.ntype(e.left, env), self.ntype(e.right, env))
             return "Z" if isinstance(e.op, ast.Sub) else t
+        elif isinstance(e, ast.BinOp) and isinstance(e.op, ast.Mult) and self.unit is not None and self.unit.products \
+                and not self.is_fresh(e):
+            return self.join(e, self.ntype(e.left, env), self.ntype(e.right, env))
         elif isinstance(e, ast.BinOp) and isinstance(e.op, ast.Pow):
             self.join(e, self.ntype(e.right, env), "lit")
             return "Z" if self.join(e, self.ntype(e.left, env), "lit") == "Z" else "N"
@@ -484,6 +558,10 @@ class _Fun:
             return self.call_type(e, env)
         elif isinstance(e, ast.Subscript):
             bt = self.ntype(e.value, env)
+            if self.kind(bt)[0] in ("mapping", "enumdict"):
+                return self.lookup(e, bt, env)[0]
+            if self.kind(bt)[0] == "nodedict":
+                return self.unit.nodedicts[bt][1]
             if not is_list(bt):
                 self.abort(e, f"indexing a value of type {bt}")
             return arg_of(bt)
@@ -496,6 +574,86 @@ class _Fun:
             if k and k[0] == "filter":
                 return self.ntype(k[2], env)
         self.abort(e, f"expression outside the handled subset: {ast.dump(e)[:80]}")
+
+    def ext_sum(self, e, env):
+        """The type of `a + b` when an operand is of an opaque number type the unit declared an addition for
+        (the other operand: the same type, or an int, injected); None when neither operand is."""
+        if self.unit is None or not self.unit.arith:
+            return None
+        lt, rt = self.ntype(e.left, env), self.ntype(e.right, env)
+        for t in (lt, rt):
+            if t in self.unit.arith:
+                if any(o != t and o not in ("N", "Z", "lit") for o in (lt, rt)):
+                    self.abort(e, f"addition of operands of type {lt} and {rt}")
+                return t
+        return None
+
+    def lookup(self, e, bt: str, env):
+        """(type, Coq function applied to the key's term, key expression or None) of the subscript `e` on a value
+        of the declared mapping / enum-keyed dictionary type `bt`.  A mapping keyed by the nodes of a tree is a
+        total function on node identifiers; a dictionary keyed by enum members is a record (the key must be a
+        literal `<Enum>.<MEMBER>`).  A missing key (KeyError) is not modelled: the driver assumes totality."""
+        k, name, _ = self.kind(bt)
+        if isinstance(e.slice, ast.Slice) or not isinstance(e.ctx, ast.Load):
+            self.abort(e, f"slice of / store into a value of type {bt}")
+        if k == "mapping":
+            tree, vt = self.unit.mappings[name]
+            kt = self.ntype(e.slice, env)
+            if kt != tree:
+                self.abort(e, f"key of type {kt} in a mapping keyed by the nodes of a {tree}")
+            return vt, None, e.slice
+        key = e.slice
+        if not (isinstance(key, ast.Attribute) and self.enum_member(key)
+                and (key.value.id, key.attr) in self.unit.enumdicts[name]):
+            self.abort(e, f"key of a {name} other than a declared literal <Enum>.<MEMBER>")
+        return self.unit.enumdicts[name][(key.value.id, key.attr)], f"{name}_{key.attr}", None
+
+    def opaque_call(self, e, env):
+        """(argument types, result type, Coq function, receiver expression) when `e` is `x.m(..)` or `x(..)` with x an
+        expression of an opaque type for which the unit declared that method / the call; else None."""
+        f = e.func
+        if self.unit is None or not self.unit.opaque_methods:
+            return None
+        if isinstance(f, ast.Attribute) and not _is_self_call(e) and not (isinstance(f.value, ast.Name)
+                                                                         and f.value.id == "self"):
+            if isinstance(f.value, ast.Name) and (f.value.id not in self.spec.types or f.value.id not in env):
+                return None
+            recv, meth = f.value, f.attr
+        elif isinstance(f, ast.Name) and f.id in self.spec.types and f.id in env:
+            recv, meth = f, "__call__"
+        else:
+            return None
+        try:
+            rt = self.ntype(recv, env)
+        except TranslatorAbort:
+            return None
+        decl = self.unit.opaque_methods.get(rt, {}).get(meth)
+        if decl is None:
+            return None
+        return decl[0], decl[1], decl[2], recv
+
+    def tree_test(self, e, env):
+        """The receiver when `e` is `x.is_leaf()` on a variable of a declared tree type; else None."""
+        f = e.func
+        if self.unit is not None and isinstance(f, ast.Attribute) and f.attr == "is_leaf" and not e.args \
+                and isinstance(f.value, ast.Name) and f.value.id in env \
+                and self.kind(self.spec.types.get(f.value.id, ""))[0] == "tree":
+            return f.value
+        return None
+
+    def frozen_alias(self, s, x: str, env) -> bool:
+        """`x = m[node]`, m of a declared (read-only) mapping type, x a local variable the function binds exactly once and
+        never updates: x names a list that nothing in the translated code can modify, so the alias is harmless."""
+        v = s.value
+        if self.unit is None or not (isinstance(v, ast.Subscript) and self.kind(self.ntype(v.value, env))[0] == "mapping"):
+            return False
+        if x in self.params or x in self.fieldvars:
+            return False
+        stores = [n for n in ast.walk(self.fn) if isinstance(n, ast.Name) and n.id == x and not isinstance(n.ctx, ast.Load)]
+        return len(stores) == 1 and not any(
+            isinstance(n, ast.Subscript) and not isinstance(n.ctx, ast.Load) and _base_name(n) == x
+            or isinstance(n, ast.Call) and isinstance(n.func, ast.Attribute) and _base_name(n.func.value) == x
+            for n in ast.walk(self.fn))
 
     def const_of(self, e):
         """(type, term, negated term or None) when the name `e` is a constant declared by the unit."""
@@ -568,12 +726,22 @@ class _Fun:
         if self.unit is not None and isinstance(f, ast.Name) and f.id not in self.spec.types:
             if f.id == "set" and not e.args:
                 return "newset"
+            if f.id == "set" and len(e.args) == 1 and self.unit.set_ops and is_list(self.ntype(e.args[0], env)) \
+                    and arg_of(self.ntype(e.args[0], env)) == "elem":
+                return "newset"
+            if f.id == "min" and len(e.args) == 2 and self.unit.products \
+                    and all(self.ntype(a, env) in ("N", "Z", "lit") for a in e.args):
+                return self.join(e, self.ntype(e.args[0], env), self.ntype(e.args[1], env))
             if f.id in self.unit.externals and f.id not in self.unit.functions:
                 return self.unit.externals[f.id][1]
             if f.id in self.unit.datas or f.id in self.unit.classes:
                 return "new " + f.id
         if self.unit is not None and isinstance(f, ast.Name) and "->" in self.spec.types.get(f.id, ""):
             return self.spec.types[f.id].split("->")[-1].strip()
+        if self.tree_test(e, env) is not None:
+            return "bool"
+        if self.opaque_call(e, env) is not None:
+            return self.opaque_call(e, env)[1]
         oc = self.obj_call(e, env)
         if oc is not None:
             if not oc[3].ret:
@@ -590,10 +758,10 @@ class _Fun:
             return self.ntype(a, env)
         if isinstance(f, ast.Name) and self.unit is not None and f.id in self.unit.functions:
             return self.unit.functions[f.id].ret
-        if _is_self_call(e) and self.cls is not None:
-            for m in self.cls.methods:
-                if m.name == f.attr and m.ret:
-                    return m.ret
+        if (_is_self_call(e) or _is_super_call(e)) and self.cls is not None:
+            m = self.resolve(e)
+            if m is not None and m.ret:
+                return m.ret
         return "N"          # rejected by raw()
 
     def expr(self, e, want: str, env, hoist) -> str:
@@ -612,6 +780,14 @@ class _Fun:
             if self.kind(want)[0] != "set":
                 self.abort(e, f"set display where a value of type {want} is expected")
             return self.raw(e, want, env, hoist)
+        if t == "newdict":
+            if self.kind(want)[0] != "nodedict":
+                self.abort(e, f"dictionary display where a value of type {want} is expected")
+            tree, vt, _ = self.unit.nodedicts[want]
+            if self.ntype(e.keys[0], env) != tree:
+                self.abort(e, f"key of a {want} that is not a node of a {tree}")
+            k = self.raw(e.keys[0], tree, env, hoist)                      # key first, then the value
+            return f"(cons ({tree}_id {k}, {self.expr(e.values[0], vt, env, hoist)}) nil)"
         if t.startswith("new "):
             if self.kind(want)[:2] != (("data" if t[4:] in self.unit.datas else "class"), t[4:]):
                 self.abort(e, f"construction of a {t[4:]} where a value of type {want} is expected")
@@ -624,6 +800,8 @@ class _Fun:
             if not is_list(want):
                 self.abort(e, f"list display where a value of type {want} is expected")
             return self.raw(e, want, env, hoist)
+        if self.unit is not None and want in self.unit.arith and t in ("lit", "N", "Z"):
+            return f"({self.unit.arith[want][1]} {self.expr(e, 'Z', env, hoist)})"     # an int among extended numbers
         if is_option(want) and not is_option(t):
             return f"(Some {self.expr(e, arg_of(want), env, hoist)})"
         if is_list(want) and is_list(t) and t != want and is_option(arg_of(want)) and arg_of(arg_of(want)) == arg_of(t):
@@ -660,7 +838,8 @@ class _Fun:
             if self.enum_member(e):
                 return f"{e.value.id}_{e.attr}"
             vt = self.ntype(e.value, env)
-            return f"({self.kind(vt)[1]}_{e.attr} {self.raw(e.value, vt, env, hoist)})"
+            k, name, _ = self.kind(vt)
+            return f"({self.unit.classes[name].short if k == 'class' else name}_{e.attr} {self.raw(e.value, vt, env, hoist)})"
         if isinstance(e, ast.Set):
             return f"(cons {self.expr(e.elts[0], 'elem' + self.kind(t)[2], env, hoist)} nil)"
         if isinstance(e, ast.UnaryOp) and isinstance(e.op, ast.USub):
@@ -677,6 +856,10 @@ class _Fun:
             self.need("NegativePower")
             hoist.append(("guard", f"(Z.ltb {ex} 0%Z)", "NegativePower"))
             return f"({t}.pow {base} {'(Z.to_N ' + ex + ')' if t == 'N' else ex})"
+        if isinstance(e, ast.BinOp) and isinstance(e.op, ast.Add) and self.unit is not None and t in self.unit.arith:
+            return f"({self.unit.arith[t][0]} {self.expr(e.left, t, env, hoist)} {self.expr(e.right, t, env, hoist)})"
+        if isinstance(e, ast.BinOp) and isinstance(e.op, ast.Mult) and t in ("N", "Z"):
+            return f"({t}.mul {self.expr(e.left, t, env, hoist)} {self.expr(e.right, t, env, hoist)})"
         if isinstance(e, ast.BinOp) and isinstance(e.op, ast.Mult):
             et = arg_of(t)
             if et not in IMMUTABLE:
@@ -704,6 +887,13 @@ class _Fun:
                 if f is None:
                     self.abort(e, f"comparison {fn} on values of type {lt}")
                 a, b = self.expr(e.left, lt, env, hoist), self.expr(e.comparators[0], lt, env, hoist)
+            elif self.unit is not None and self.unit.set_ops and isinstance(e.ops[0], ast.LtE) \
+                    and all(x == "newset" or self.kind(x)[0] == "set" and not self.kind(x)[2] for x in (lt, rt)):
+                if self.unit.outside:
+                    self.abort(e, "a <= b on sets outside the section of the element equality")
+                self.need("set_add", "set_of_list")
+                self.uses_eqb = True
+                a, b, f = self.expr(e.left, "set", env, hoist), self.expr(e.comparators[0], "set", env, hoist), "set_subset"
             elif lt == rt and self.kind(lt)[0] == "enum" and fn == "eqb":
                 a, b, f = self.expr(e.left, lt, env, hoist), self.expr(e.comparators[0], lt, env, hoist), lt + "_eqb"
             else:
@@ -727,6 +917,26 @@ class _Fun:
             return out
         if isinstance(e, ast.Call) and not e.keywords:
             return self.call(e, t, env, hoist)
+        if isinstance(e, ast.Subscript) and self.unit is not None \
+                and self.kind(self.ntype(e.value, env))[0] in ("mapping", "enumdict"):
+            bt = self.ntype(e.value, env)
+            _, proj, key = self.lookup(e, bt, env)
+            d = self.raw(e.value, bt, env, hoist)
+            if key is None:
+                return f"({proj} {d})"
+            kt = self.ntype(key, env)
+            return f"({d} ({kt}_id {self.raw(key, kt, env, hoist)}))"
+        if isinstance(e, ast.Subscript) and isinstance(e.value, ast.Name) and self.unit is not None \
+                and self.kind(self.ntype(e.value, env))[0] == "nodedict":
+            # d[node] on a local dictionary keyed by nodes: KeyError when the node was never stored
+            tree, _, eqf = self.unit.nodedicts[self.ntype(e.value, env)]
+            if isinstance(e.slice, ast.Slice) or self.ntype(e.slice, env) != tree:
+                self.abort(e, f"key of {e.value.id} that is not a node of a {tree}")
+            self.need("dict_get", "KeyError")
+            self.nt += 1
+            hoist.append(("unwrap", f"t'{self.nt}", f"dict_get {eqf} {e.value.id} ({tree}_id {self.raw(e.slice, tree, env, hoist)})",
+                          "KeyError"))
+            return f"t'{self.nt}"
         if isinstance(e, ast.Subscript):
             if isinstance(e.slice, ast.Slice):
                 self.abort(e, "only xs[i] with xs a declared sequence variable is handled")
@@ -804,9 +1014,26 @@ class _Fun:
             return f"(N.size {self.raw(f.value, 'N', env, hoist)})"
         if self.unit is None:
             self.abort(e, "call outside the handled subset (len(xs), e.bit_length())")
+        if self.tree_test(e, env) is not None:
+            x = self.tree_test(e, env)
+            return f"({self.spec.types[x.id]}_is_leaf {x.id})"
+        if self.opaque_call(e, env) is not None:
+            argts, _, coq, recv = self.opaque_call(e, env)
+            if len(argts) != len(e.args) or any(isinstance(a, ast.Starred) for a in e.args):
+                self.abort(e, f"call of {coq} with {len(e.args)} arguments")
+            r = self.raw(recv, self.ntype(recv, env), env, hoist)          # receiver first, then the arguments in order
+            return "(" + " ".join([coq, r] + [self.expr(a, at, env, hoist) for a, at in zip(e.args, argts)]) + ")"
         if isinstance(f, ast.Name) and f.id not in self.spec.types:
             if f.id == "set" and not e.args:
                 return f"(@nil ({self.ct('elem' + self.kind(t)[2])}))"
+            if f.id == "set" and len(e.args) == 1 and self.unit.set_ops:
+                if self.kind(t)[2] or self.unit.outside:
+                    self.abort(e, "set(xs) outside the section of the element equality")
+                self.need("set_add", "set_of_list")
+                self.uses_eqb = True
+                return f"(set_of_list {self.expr(e.args[0], 'list', env, hoist)})"
+            if f.id == "min" and len(e.args) == 2 and t in ("N", "Z") and self.unit.products:
+                return f"({t}.min {self.expr(e.args[0], t, env, hoist)} {self.expr(e.args[1], t, env, hoist)})"
             if f.id in self.unit.externals and f.id not in self.unit.functions:
                 argts, _, coq = self.unit.externals[f.id]
                 if len(argts) != len(e.args):
@@ -885,33 +1112,42 @@ class _Fun:
             self.nt += 1
             hoist.append(("call", f"t'{self.nt}", " ".join([self.prefix + (callee.alias or callee.name)] + args)))
             return f"t'{self.nt}"
-        if _is_self_call(e) and self.cls is not None:
-            if id(e) not in self.callpos:
+        if (_is_self_call(e) or _is_super_call(e)) and self.cls is not None:
+            if id(e) not in self.callpos and not self.cls.frozen:
+                # (the methods of a frozen class change nothing: their calls are hoisted in evaluation order)
                 self.abort(e, "self.m(..) is only translated as a whole right-hand side, a returned value, or the "
                               "index of xs[self.m(..)].append(e) (elsewhere the evaluation order would matter)")
-            callee = next((m for m in self.cls.methods if m.name == f.attr), None)
+            callee = self.resolve(e)
             if callee is None or not callee.ret or callee.name == "__init__":
                 self.abort(e, f"call of {f.attr!r}, which is not a translated method returning a value")
-            done = [m.name for m in self.unit.done_methods.get(self.cls.name, [])]
-            rec = callee.name == self.fn.name
-            if not rec and callee.name not in done:
+            done = [_mkey(m) for m in self.unit.done_methods.get(self.cls.name, [])]
+            rec = _mkey(callee) == _mkey(self.spec)
+            if not rec and _mkey(callee) not in done:
                 self.abort(e, f"method {f.attr!r} is not translated before its caller")
-            if rec and not self.spec.rec_fuel:
+            if rec and not self.spec.rec_fuel and not self.spec.rec_on:
                 self.abort(e, "recursive method without a declared fuel measure")
             if any(v not in env for v in self.fieldvars):
                 self.abort(e, "method call before every attribute is assigned")
-            params = self.unit.params[(self.cls.name, callee.name)]
+            params = self.unit.params[(self.cls.name, _mkey(callee))]
             if len(params) != len(e.args):
                 self.abort(e, f"{f.attr}() called with {len(e.args)} arguments")
             args = []
             for a, p in zip(e.args, params):
                 if is_list(callee.types[p]):
                     self.abort(e, "list argument to a method")
-                if any(_is_self_call(n) for n in ast.walk(a)):
+                if any(_is_self_call(n) or _is_super_call(n) for n in ast.walk(a)):
                     self.abort(e, "method call inside the arguments of a method call")
                 args.append(self.expr(a, callee.types[p], env, hoist))
             name = self.callee(e, self.cls, callee, "")
-            if rec:
+            if rec and self.spec.rec_on:
+                # structural recursion: the argument in the position of the recursion parameter must be a variable
+                # bound by unpacking the children of that parameter (or of such a variable)
+                pos = params.index(self.spec.rec_on)
+                a = e.args[pos]
+                if self.unit.outside or not (isinstance(a, ast.Name) and a.id in self.subtrees):
+                    self.abort(e, f"recursive call whose argument for {self.spec.rec_on!r} is not a child of it")
+                self.in_rec = True
+            elif rec:
                 if self.unit.outside:
                     self.abort(e, "recursive method translated outside the section of its class")
                 self.in_rec = True
@@ -921,10 +1157,28 @@ class _Fun:
             return f"t'{self.nt}"
         self.abort(e, "call outside the handled subset")
 
+    def resolve(self, e) -> Optional[FunSpec]:
+        """The translated method a call `self.m(..)` / `super().m(..)` reaches: `self.m` is the definition of the class
+        itself when it has one, else the inherited one; `super().m`, written in a method defined by the class itself, is
+        the one inherited from the base class."""
+        name = e.func.attr
+        cands = [m for m in self.cls.methods if m.name == name]
+        if _is_super_call(e):
+            if not self.cls.frozen or self.cls.base is None or self.spec.owner is not None:
+                self.abort(e, "super() outside a method defined by a frozen class with a declared base")
+            return next((m for m in cands if m.owner == self.cls.base), None)
+        own = next((m for m in cands if m.owner is None), None)
+        if own is None and cands:
+            body = self.unit._unique(self.unit.tree.body, self.cls.name, ast.ClassDef).body
+            if any(getattr(b, "name", None) == name or isinstance(b, ast.AnnAssign) and isinstance(b.target, ast.Name)
+                   and b.target.id == name for b in body):
+                self.abort(e, f"{self.cls.name} defines {name!r} itself: self.{name} is not the inherited method")
+        return own if own is not None else next(iter(cands), None)
+
     def callee(self, node, cls: ClassSpec, m: FunSpec, sfx: str) -> str:
         """Head of a call of the generated method `m` of `cls`, for the instance `sfx` of the class."""
         name = self.prefix + (m.alias or m.name)
-        dep = self.unit.method_uses_eqb.get((cls.name, m.name), False)
+        dep = self.unit.method_uses_eqb.get((cls.name, _mkey(m)), False)
         if not self.unit.outside:
             if sfx:
                 self.abort(node, "a second instance of the class inside the section of the class")
@@ -939,8 +1193,8 @@ class _Fun:
 
     def method_args(self, e, cls: ClassSpec, m: FunSpec, sfx: str, env, hoist) -> List[str]:
         """Argument terms of the call `e` of method `m` (`*args` of the callee: one list)."""
-        params = self.unit.params[(cls.name, m.name)]
-        var = self.unit.varargs.get((cls.name, m.name))
+        params = self.unit.params[(cls.name, _mkey(m))]
+        var = self.unit.varargs.get((cls.name, _mkey(m)))
         par = self.unit.parametric()
         if any(isinstance(a, ast.Starred) for a in e.args) or e.keywords:
             self.abort(e, "call with starred or keyword arguments")
@@ -1079,6 +1333,15 @@ class _Fun:
             return self.block(rest, env, ctx)
         if isinstance(s, ast.Assert):
             t = s.test
+            if s.msg is None and self.unit is not None and self.unit.bool_asserts and not (
+                    isinstance(t, ast.Compare) and isinstance(t.ops[0], (ast.Is, ast.IsNot))):
+                # assert c: AssertionError when c is false (the translation is of the program run without -O)
+                if self.ntype(t, env) != "bool":
+                    self.abort(s, "assert of something that is not a boolean expression")
+                self.need("AssertionError")
+                test = self.expr(t, "bool", env, h)
+                return self.hoisted(h, [f"if {test} then ("] + _ind(self.block(rest, env, ctx))
+                                    + [f") else {ctx.fail('AssertionError')}"], ctx)
             if not (s.msg is None and isinstance(t, ast.Compare) and len(t.ops) == 1 and isinstance(t.ops[0], ast.IsNot)
                     and isinstance(t.left, ast.Name) and isinstance(t.comparators[0], ast.Constant)
                     and t.comparators[0].value is None and self.unit is not None):
@@ -1148,9 +1411,48 @@ class _Fun:
                     self.abort(s, "only 'name = expression' assignments are handled")
                 target = s.target
             else:
+                if len(s.targets) == 2 and self.unit is not None and self.unit.nodedicts and isinstance(s.targets[0], ast.Name) \
+                        and isinstance(s.targets[1], ast.Subscript) \
+                        and s.targets[0].id not in _names([s.targets[1], s.value]):
+                    # a = d[k] = e: e is evaluated once, then bound to a, then stored: the same as a = e; d[k] = a
+                    first = ast.copy_location(ast.Assign(targets=[s.targets[0]], value=s.value), s)
+                    load = ast.copy_location(ast.Name(id=s.targets[0].id, ctx=ast.Load()), s)
+                    second = ast.copy_location(ast.Assign(targets=[s.targets[1]], value=load), s)
+                    return self.block([first, second] + rest, env, ctx)
                 if len(s.targets) != 1:
                     self.abort(s, "only 'name = expression' assignments are handled")
                 target = s.targets[0]
+                if isinstance(target, ast.Subscript) and isinstance(target.value, ast.Name) and self.unit is not None \
+                        and target.value.id in env and self.kind(self.spec.types.get(target.value.id, ""))[0] == "nodedict":
+                    d = target.value.id
+                    tree, vt, _ = self.unit.nodedicts[self.ty(s, d)]
+                    if d in self.params or d in self.fieldvars or isinstance(target.slice, ast.Slice) \
+                            or self.ntype(target.slice, env) != tree:
+                        self.abort(s, f"store into {d} (a parameter / an attribute), or with a key that is not a node of a {tree}")
+                    val = self.expr(s.value, vt, env, h)                   # the value first, then the key
+                    key = self.raw(target.slice, tree, env, h)
+                    return self.hoisted(h, [f"let {d} := (cons ({tree}_id {key}, {val}) {d}) in"] + self.block(rest, env, ctx), ctx)
+            if isinstance(target, ast.Tuple) and self.unit is not None and isinstance(s, ast.Assign) \
+                    and isinstance(s.value, ast.Attribute) and s.value.attr == "children" \
+                    and isinstance(s.value.value, ast.Name) and s.value.value.id in env \
+                    and self.kind(self.spec.types.get(s.value.value.id, ""))[0] == "tree":
+                # a, b = x.children on a node of a binary tree: the two subtrees; ValueError (too few values to
+                # unpack) on a leaf.  The driver assumes every node has no or exactly two children.
+                x, tt = s.value.value.id, self.ty(s, s.value.value.id)
+                names = [v.id for v in target.elts if isinstance(v, ast.Name)]
+                if len(names) != 2 or len(target.elts) != 2 or names[0] == names[1] or x in names:
+                    self.abort(s, "unpacking of .children into anything but two distinct variables")
+                for v in names:
+                    if self.ty(s, v) != tt:
+                        self.abort(s, f"{v!r} must be declared {tt}")
+                    if v in self.params or v in self.fieldvars or v + "!" in env:
+                        self.abort(s, f"unpacking of .children into the parameter / attribute {v!r}")
+                if x in self.subtrees or x == self.spec.rec_on:
+                    self.subtrees.update(names)
+                self.need("ValueError")
+                env2 = env + [v for v in names if v not in env]
+                return [f"match {x} with", f"| {tt}_leaf _ => {ctx.fail('ValueError')}", f"| {tt}_node _ {names[0]} {names[1]} =>"] \
+                    + _ind(self.block(rest, env2, ctx)) + ["end"]
             if isinstance(target, ast.Subscript):
                 bt = None
                 n = target
@@ -1171,9 +1473,13 @@ class _Fun:
                 self.abort(s, "only 'name = expression' assignments are handled")
             x = target.id
             xt = self.ty(s, x)
+            if x in self.subtrees or (self.spec.rec_on and x == self.spec.rec_on):
+                self.abort(s, f"assignment to {x!r}, which the structural recursion relies on")
             if self.unit is None:
                 if xt == "list" and not isinstance(s.value, ast.List):
                     self.abort(s, "a sequence variable may only be assigned [] (anything else could alias another list)")
+            elif is_list(xt) and self.frozen_alias(s, x, env):
+                pass                               # a name for a list nothing can modify
             elif is_list(xt):
                 if not self.is_fresh(s.value):
                     self.abort(s, "a sequence variable may only be assigned a freshly built list (anything else could alias another list)")
@@ -1182,6 +1488,9 @@ class _Fun:
             elif self.kind(xt)[0] == "set":
                 if self.ntype(s.value, env) != "newset":
                     self.abort(s, "a set variable may only be assigned set() or {e} (anything else could alias another set)")
+            elif self.kind(xt)[0] == "nodedict":
+                if self.ntype(s.value, env) != "newdict" or x in self.fieldvars or x in self.params:
+                    self.abort(s, "a dictionary variable may only be a local assigned a dictionary display {k: e}")
             elif self.kind(xt)[0] == "class":
                 if not self.ntype(s.value, env).startswith("new ") or x in self.fieldvars:
                     self.abort(s, "an object variable may only be a local assigned a newly constructed object")
@@ -1270,6 +1579,12 @@ class _Fun:
                 and isinstance(s.target, ast.Tuple) and len(s.target.elts) == 2 \
                 and all(isinstance(x, ast.Name) for x in s.target.elts):
             it, kind, targets = s.iter, "product", [x.id for x in s.target.elts]
+        elif isinstance(s, ast.For) and self.unit is not None and isinstance(s.target, ast.Name) \
+                and isinstance(s.iter, ast.Call) and isinstance(s.iter.func, ast.Attribute) and s.iter.func.attr == "traverse" \
+                and isinstance(s.iter.func.value, ast.Name) and s.iter.func.value.id in env \
+                and self.kind(self.spec.types.get(s.iter.func.value.id, ""))[0] == "tree" and not s.iter.keywords \
+                and len(s.iter.args) == 1 and isinstance(s.iter.args[0], ast.Constant) and s.iter.args[0].value == "preorder":
+            it, kind, targets = s.iter, "preorder", [s.target.id]
         elif isinstance(s, ast.For):
             it = s.iter
             nargs = (1, 2) if self.unit is not None else (1,)
@@ -1294,7 +1609,7 @@ class _Fun:
         ro = [v for v in env if v not in state and v in used]
         if any(v + "!" in env for v in state + ro):
             self.abort(s, "a variable narrowed by an assert is used in a loop")
-        if self.spec.rec_fuel and any(_is_self_call(c) and c.func.attr == self.fn.name
+        if (self.spec.rec_fuel or self.spec.rec_on) and any(_is_self_call(c) and c.func.attr == self.fn.name
                                       for b in s.body for c in ast.walk(b)):
             self.abort(s, "recursive call inside a loop")
         name = f"{self.prefix}{self.spec.alias or self.fn.name}_{'while' if kind == 'while' else 'for'}{n}"
@@ -1329,6 +1644,26 @@ class _Fun:
             fix = [sig(f"(it' : {cty})", "it'"), "  match it' with", f"  | nil => Next {tup}",
                    f"  | cons {targets[0]} it'' =>"] + _ind(_ind(body)) + ["  end."]
             call = args([term])
+        elif kind == "preorder":
+            # for x in t.traverse("preorder"): the node, then its first subtree, then its second one (ete3); the loop is a
+            # Fixpoint on the tree, [next'] (what follows the body for this node) descends into the two subtrees
+            tv = it.func.value.id
+            tt = self.ty(s, tv)
+            if self.ty(s, targets[0]) != tt or tv in mutated:
+                self.abort(s, f"the loop variable must be declared {tt} (and the loop may not assign {tv!r})")
+            ctx.brk = None                    # a break would have to leave every enclosing call
+            ctx.fall = " ".join(["next'"] + state) if state else "next' tt"
+            body = self.block(s.body, inner_env + targets, ctx)
+            pat = "_" if not state else tup
+            fix = [sig(f"(it' : {self.ct(tt)})", "it'"),
+                   "  let next' := fun " + (" ".join(self.binder(s, v) for v in state) or "(_ : unit)") + " =>",
+                   "    match it' with", f"    | {tt}_leaf _ => Next {tup}", f"    | {tt}_node _ it1'' it2'' =>",
+                   "      match " + args(["it1''"]) + " with",
+                   f"      | Next {pat} => " + args(["it2''"]),
+                   "      | Ret r' => Ret r'", "      | Fail e' => Fail e'", "      end", "    end in",
+                   f"  let {targets[0]} := it' in"] + _ind(body)
+            fix[-1] += "."
+            call = args([tv])
         elif kind == "product":
             # one Python loop over all pairs, in the order of itertools.product: two nested Fixpoints
             (term1, cty1, et1), (term2, cty2, et2) = [self.iterable(s, a, env, h, mutated) for a in it.args]
@@ -1425,6 +1760,9 @@ class _Fun:
         self.params = [x.arg for x in a.args]
         for x, d in zip(a.args[len(a.args) - len(a.defaults):], a.defaults):
             # a parameter with the default None that every translated call omits is the constant None
+            if isinstance(d, ast.Constant) and d.value is None and self.unit.passed_defaults \
+                    and self.kind(self.spec.types.get(x.arg, "none"))[0] == "tree":
+                continue                          # `node=None` declared a tree: every translated call passes it
             if not (isinstance(d, ast.Constant) and d.value is None and self.spec.types.get(x.arg) == "none"):
                 self.abort(x, f"parameter {x.arg!r} has a default value: only '= None' on a parameter declared 'none' "
                               "(omitted by every call) is handled")
@@ -1483,12 +1821,18 @@ class _Fun:
                 f"Definition {name}{' ' * bool(binders)}{binders} : res ({self.RR}) :=\n" + "\n".join(_ind(body)) + "."])
         body = [f"let '{self.state(fn)} := self in"] + body
         if not self.in_rec:
-            if self.spec.rec_fuel:
-                self.abort(fn, "fuel declared for a method that does not call itself")
+            if self.spec.rec_fuel or self.spec.rec_on:
+                self.abort(fn, "fuel / recursion parameter declared for a method that does not call itself")
             return head + "\n\n".join(self.fixpoints + [
                 f"Definition {name} (self : {st}){' ' * bool(binders)}{binders} : res ({self.RR}) :=\n" + "\n".join(_ind(body)) + "."])
         if self.fixpoints:
             self.abort(fn, "recursive method with loops")
+        if self.spec.rec_on:
+            if self.spec.rec_fuel or self.spec.rec_on not in self.params \
+                    or self.kind(self.spec.types[self.spec.rec_on])[0] != "tree":
+                self.abort(fn, "the recursion parameter must be a parameter of a declared tree type (and no fuel declared)")
+            return head + "\n".join(
+                [f"Fixpoint {name} (self : {st}) {binders} {{struct {self.spec.rec_on}}} : res ({self.RR}) :="] + _ind(body)) + "."
         rec = [f"Fixpoint {name}_rec (fuel' : nat) (self : {st}) {binders} {{struct fuel'}} : res ({self.RR}) :=",
                "  match fuel' with", "  | O => Err OutOfFuel", "  | S fuel'' =>"] + _ind(_ind(body)) + ["  end."]
         top = [f"Definition {name} (self : {st}){' ' * bool(binders)}{binders} : res ({self.RR}) :=",
@@ -1552,6 +1896,18 @@ class Unit:
         self.varargs: Dict[object, str] = {}
         self.method_uses_eqb: Dict[object, bool] = {}
         self.outside = False                   # translating after the Section of the classes was closed
+        # third extension (all empty / False for the units that declare none of this)
+        self.trees: Dict[str, str] = {}        # binary tree type -> Coq type of its node identifiers
+        self.mappings: Dict[str, tuple] = {}   # mapping type (dict keyed by the nodes of a tree) -> (tree type, value type)
+        self.enumdicts: Dict[str, dict] = {}   # dict keyed by enum members -> {(enum, member): declared type}
+        self.opaque_methods: Dict[str, dict] = {}   # opaque type -> {method | "__call__": (argument types, result type, Coq function)}
+        self.arith: Dict[str, tuple] = {}      # opaque number type -> (Coq addition, Coq injection from Z)
+        self.taken: set = {"dict_get", "set_of_list", "set_subset"}   # Coq names the declarations / new helpers introduce
+        self.nodedicts: Dict[str, tuple] = {}  # local dict keyed by the nodes of a tree -> (tree type, value type, key equality)
+        self.set_ops = False                   # `set(xs)` of a list of elements, `a <= b` on sets
+        self.products = False                  # `a * b`, `min(a, b)` on ints; an int literal beside an int in `a if c else b`
+        self.bool_asserts = False              # `assert <boolean expression>`
+        self.passed_defaults = False           # `node=None` on a tree parameter that every translated call passes
         self.insts: Dict[str, tuple] = {"": ("A", "eqb")}   # type-name suffix -> (element type, its equality or None)
 
     # ------------------------------------------------------------ declared types
@@ -1560,7 +1916,8 @@ class Unit:
         return {"elem", "set"} | set(self.datas) | set(self.classes)
 
     def extra_names(self) -> set:
-        base = set(self.opaques) | set(self.enums) | {"unit", "none"}
+        base = set(self.opaques) | set(self.enums) | {"unit", "none"} | set(self.trees) | set(self.mappings) \
+            | set(self.enumdicts) | set(self.nodedicts)
         return base | {p + s for p in self.parametric() for s in self.insts}
 
     def kind(self, t: str):
@@ -1568,6 +1925,14 @@ class Unit:
             return "opaque", t, ""
         if t in self.enums:
             return "enum", t, ""
+        if t in self.trees:
+            return "tree", t, ""
+        if t in self.mappings:
+            return "mapping", t, ""
+        if t in self.enumdicts:
+            return "enumdict", t, ""
+        if t in self.nodedicts:
+            return "nodedict", t, ""
         for sfx in sorted(self.insts, key=len, reverse=True):
             b = t[:len(t) - len(sfx)] if sfx else t
             if t.endswith(sfx) and b in self.parametric():
@@ -1578,6 +1943,8 @@ class Unit:
     def coq_base(self) -> Dict[str, str]:
         base = {k: v[0] for k, v in self.opaques.items()}
         base.update({k: k for k in self.enums})
+        base.update({k: k for k in self.trees})
+        base.update({k: k for k in self.enumdicts})
         base["unit"] = "unit"
         for sfx, (a, _) in self.insts.items():
             arg = " " + a if self.outside else ""
@@ -1589,6 +1956,12 @@ class Unit:
                 base[c + sfx] = f"{spec.short}_state{arg}"
         if not self.opaques and not self.enums and not self.datas and not self.classes and not self.outside:
             return {}
+        for k, (tree, vt) in self.mappings.items():
+            v = coq_type(vt, base)
+            base[k] = f"{self.trees[tree]} -> {v if ' ' not in v else '(' + v + ')'}"
+        for k, (tree, vt, _) in self.nodedicts.items():
+            v = coq_type(vt, base)
+            base[k] = f"list ({self.trees[tree]} * {v if ' ' not in v else '(' + v + ')'})"
         return base
 
     def cls_parametric(self, cls: ClassSpec) -> bool:
@@ -1615,7 +1988,9 @@ class Unit:
                           and isinstance(x.ctx, (ast.Store, ast.Del))]
         glob = [n for n in ast.walk(self.tree) if isinstance(n, (ast.Global, ast.Nonlocal)) and name in n.names]
         star = [n for n in self.tree.body if isinstance(n, ast.ImportFrom) and any(a.name == "*" for a in n.names)]
-        if len(binds) != 1 or binds[0][1] != module or binds[0][2] != name or binds[0][0].level or glob or star:
+        level = len(module) - len(module.lstrip("."))       # `..pkg.mod`: a relative import of that level
+        if len(binds) != 1 or binds[0][1] != module.lstrip(".") or binds[0][2] != name or binds[0][0].level != level \
+                or glob or star:
             where = (glob + star + [b[0] for b in binds] + [self.tree])[0]
             self.abort(where, f"{name!r} is not bound exactly once, by 'from {module} import {name}'")
 
@@ -1630,6 +2005,72 @@ class Unit:
     def external(self, name: str, module: str, args: List[str], ret: str, coq: str):
         self.imported(name, module)
         self.externals[name] = (list(args), ret, coq)
+
+    def bintree(self, name: str, ident: str) -> str:
+        """A type of immutable binary trees walked with `x.is_leaf()` and `a, b = x.children` (ete3): an Inductive whose
+        nodes carry an identifier of the Coq type `ident` (the identity of the Python node object)."""
+        if name in RESERVED or name in self.extra_names():
+            self.abort(self.tree, f"tree type name {name!r} is in use")
+        self.trees[name] = ident
+        self.taken.update({name, ident, f"{name}_leaf", f"{name}_node", f"{name}_id", f"{name}_is_leaf"})
+        return "\n".join([
+            f"(* {name}: a node is a leaf or has exactly two children; [id] stands for the identity of the node object *)",
+            f"Inductive {name} : Type := {name}_leaf (id : {ident}) | {name}_node (id : {ident}) (a b : {name}).",
+            f"Definition {name}_id (t : {name}) : {ident} := match t with {name}_leaf i => i | {name}_node i _ _ => i end.",
+            f"Definition {name}_is_leaf (t : {name}) : bool := match t with {name}_leaf _ => true | {name}_node _ _ _ => false end."])
+
+    def mapping(self, name: str, tree: str, value: str):
+        """A dictionary keyed by the nodes of the tree type `tree`, only ever read, total on the nodes looked up:
+        a function from node identifiers to values of the declared type `value`."""
+        if tree not in self.trees or name in RESERVED or name in self.extra_names():
+            self.abort(self.tree, f"mapping {name!r}: unknown tree type {tree!r} / name in use")
+        try:
+            self.mappings[name] = (tree, norm_type(value, self.extra_names()))
+        except ValueError as e:
+            self.abort(self.tree, f"unknown declared type {e.args[0]!r} for the values of {name}")
+
+    def enumdict(self, name: str, keys: Dict[str, str]) -> str:
+        """A dictionary whose keys are members of declared enums (`"Enum.MEMBER" -> declared type`), only ever read with
+        a literal key, holding every declared key: a Record with one field per key."""
+        fields, names = {}, []
+        for k, t in keys.items():
+            en, _, mem = k.partition(".")
+            if en not in self.enums or mem not in self.enums[en] or mem in names:
+                self.abort(self.tree, f"key {k!r} of {name} is not a member of a declared enum (or its name is used twice)")
+            try:
+                fields[(en, mem)] = norm_type(t, self.extra_names())
+            except ValueError as e:
+                self.abort(self.tree, f"unknown declared type {e.args[0]!r} for {name}[{k}]")
+            names.append(mem)
+        if name in RESERVED or name in self.extra_names() or not fields:
+            self.abort(self.tree, f"dictionary type name {name!r} is in use / no key")
+        self.enumdicts[name] = fields
+        self.taken.update({name, "mk_" + name} | {f"{name}_{m}" for m in names})
+        return (f"(* {name}: a dictionary holding exactly the keys below *)\nRecord {name} : Type := mk_{name} {{ "
+                + "; ".join(f"{name}_{m} : {coq_type(t, self.coq_base())}" for (_, m), t in fields.items()) + " }.")
+
+    def methods_of(self, name: str, methods: Dict[str, tuple], call: tuple = None):
+        """Methods of the values of the opaque type `name` (`x.m(args)`: `method -> (argument types, result type, Coq
+        function)`, the function takes the object first) and, with `call`, what `x(args)` is.  All pure and total."""
+        if name not in self.opaques:
+            self.abort(self.tree, f"methods declared for {name!r}, which is not an opaque type")
+        decl = dict(methods)
+        if call is not None:
+            decl["__call__"] = call
+        ex = self.extra_names()
+        try:
+            self.opaque_methods[name] = {m: ([norm_type(a, ex) for a in d[0]], norm_type(d[1], ex), d[2])
+                                         for m, d in decl.items()}
+        except ValueError as e:
+            self.abort(self.tree, f"unknown declared type {e.args[0]!r} for a method of {name}")
+        self.taken.update(d[2] for d in decl.values())
+
+    def numbers(self, name: str, add: str, of_Z: str):
+        """The opaque type `name` holds numbers: `a + b` with an operand of that type is `add` (an int operand is injected
+        with `of_Z`), an int where such a number is expected is injected."""
+        if name not in self.opaques:
+            self.abort(self.tree, f"arithmetic declared for {name!r}, which is not an opaque type")
+        self.arith[name] = (add, of_Z)
 
     def use_product(self):
         self.imported("product", "itertools")
@@ -1746,6 +2187,8 @@ class Unit:
 
     def klass(self, cspec: ClassSpec) -> str:
         cls = self._unique(self.tree.body, cspec.name, ast.ClassDef)
+        if cspec.frozen:
+            return self._frozen(cls, cspec)
         if cls.decorator_list or cls.keywords:
             self.abort(cls, "decorated class / class with keywords (metaclass)")
         for b in cls.bases:
@@ -1783,16 +2226,92 @@ class Unit:
             parts.append(self._method(cls, cspec, m))
         return "\n\n".join(parts)
 
+    def _frozen(self, cls: ast.ClassDef, cspec: ClassSpec) -> str:
+        """`@dataclass(frozen=True[, repr=False]) class <name>[(<base>)]` with methods: the fields are the annotated
+        attributes (those of the base class first), no method can assign one (every method is `pure`), the methods
+        of the base class are inherited (`FunSpec.owner`) -- translated again, for the fields of this class."""
+        self.imported("dataclass", "dataclasses")
+        if not self.extended:
+            self.abort(cls, "frozen classes need an extended unit")
+        d = cls.decorator_list
+        kws = {k.arg: k.value for k in d[0].keywords} if len(d) == 1 and isinstance(d[0], ast.Call) else None
+        if kws is None or not (isinstance(d[0].func, ast.Name) and d[0].func.id == "dataclass" and not d[0].args) \
+                or set(kws) - {"frozen", "repr"} or "frozen" not in kws \
+                or not (isinstance(kws["frozen"], ast.Constant) and kws["frozen"].value is True) \
+                or any(not isinstance(v, ast.Constant) for v in kws.values()):
+            self.abort(cls, f"{cspec.name} is not decorated exactly with @dataclass(frozen=True[, repr=..])")
+        base = None
+        if cspec.base is not None:
+            base = self.classes.get(cspec.base)
+            if base is None or not base.frozen:
+                self.abort(cls, f"base class {cspec.base} is not a frozen class translated before")
+        if cls.keywords or [b.id if isinstance(b, ast.Name) else None for b in cls.bases] != [cspec.base] * (base is not None):
+            self.abort(cls, f"the bases of {cspec.name} are not exactly the declared one")
+        own = []
+        for b in cls.body:
+            if isinstance(b, ast.Expr) and isinstance(b.value, ast.Constant) and isinstance(b.value.value, str):
+                continue
+            if isinstance(b, ast.FunctionDef):
+                if b.name in FORBIDDEN_METHODS or b.name in cspec.fields or b.name in ("__post_init__", "__init__", "__new__"):
+                    self.abort(b, f"the class defines {b.name!r}, which changes what attribute access / construction means")
+                continue
+            dflt = isinstance(b, ast.AnnAssign) and (b.value is None or isinstance(b.value, ast.Constant) or (
+                isinstance(b.value, ast.Call) and isinstance(b.value.func, ast.Name) and b.value.func.id == "field"
+                and not b.value.args and [k.arg for k in b.value.keywords] == ["default_factory"]
+                and isinstance(b.value.keywords[0].value, ast.Name)))
+            if not (dflt and isinstance(b.target, ast.Name) and b.simple) or b.target.id in own:
+                self.abort(b, f"statement of the frozen class {cspec.name} other than an annotated field or a method")
+            if isinstance(b.value, ast.Call):
+                self.imported("field", "dataclasses")
+            own.append(b.target.id)
+        names = list(base.fields) if base is not None else []
+        names += [n for n in own if n not in names]
+        try:
+            fields = {k: norm_type(v, self.extra_names() | {cspec.name}) for k, v in cspec.fields.items()}
+        except ValueError as e:
+            self.abort(cls, f"unknown declared type {e.args[0]!r} for an attribute of {cspec.name}")
+        if names != list(fields) or cspec.name in RESERVED:
+            self.abort(cls, f"the fields of {cspec.name} are {names}, declared {list(fields)}")
+        for f in fields:
+            if f in RESERVED or not f.isascii() or not f.isidentifier():
+                self.abort(cls, f"attribute name {f!r} collides with the generated Coq text")
+        for m in cspec.methods:
+            if not m.pure or m.name == "__init__":
+                self.abort(cls, f"{cspec.name}.{m.name}: every translated method of a frozen class is declared pure")
+        self.classes[cspec.name] = replace(cspec, fields=fields, methods=[])
+        cspec = replace(cspec, fields=fields, methods=[self._norm(cls, m) for m in cspec.methods])
+        self.classes[cspec.name] = cspec
+        st = f"{cspec.short}_state"
+        self.taken.update({st, "mk_" + cspec.short} | {f"{cspec.short}_{f}" for f in fields})
+        parts = [f"(* frozen dataclass {cspec.name}, line {cls.lineno} *)\nRecord {st} : Type := mk_{cspec.short} {{ "
+                 + "; ".join(f"{cspec.short}_{f} : {coq_type(t, self.coq_base())}" for f, t in fields.items()) + " }."]
+        self.done_methods[cspec.name] = []
+        for m in cspec.methods:
+            parts.append(self._method(cls, cspec, m))
+        return "\n\n".join(parts)
+
     def _method(self, cls: ast.ClassDef, cspec: ClassSpec, m: FunSpec) -> str:
-        fn = self._unique(cls.body, m.name, ast.FunctionDef)
-        self.params[(cspec.name, m.name)] = [x.arg for x in fn.args.args][1:]
+        body = cls.body
+        if m.owner is not None:
+            # an inherited method: defined by the declared base class; the class itself may define the name again
+            # (the inherited definition is then what `super().<name>(..)` reaches)
+            if not cspec.frozen or m.owner != cspec.base:
+                self.abort(cls, f"{cspec.name}.{m.name}: the owner of an inherited method must be the declared base of a frozen class")
+            body = self._unique(self.tree.body, m.owner, ast.ClassDef).body
+            if m.alias is None or any(o is not m and (o.alias or o.name) == m.alias for o in cspec.methods):
+                self.abort(cls, f"{cspec.name}.{m.name}: an inherited method needs a name of its own (alias)")
+        key = _mkey(m)
+        fn = self._unique(body, m.name, ast.FunctionDef)
+        self.params[(cspec.name, key)] = [x.arg for x in fn.args.args][1:]
         if self.extended:
-            self.params[(cspec.name, m.name)] = [p for p in self.params[(cspec.name, m.name)] if m.types.get(p) != "none"]
+            self.params[(cspec.name, key)] = [p for p in self.params[(cspec.name, key)] if m.types.get(p) != "none"]
             if fn.args.vararg:
-                self.varargs[(cspec.name, m.name)] = fn.args.vararg.arg
+                self.varargs[(cspec.name, key)] = fn.args.vararg.arg
         fun = _Fun(self.path, copy.deepcopy(fn), m, self.prefix, unit=self, cls=cspec)
         text = fun.translate()
-        self.method_uses_eqb[(cspec.name, m.name)] = fun.uses_eqb
+        if m.owner is not None:
+            text = text.replace(f"(* {cspec.name}.{fn.name}, line", f"(* {cspec.name}.{fn.name} inherited from {m.owner}, line", 1)
+        self.method_uses_eqb[(cspec.name, key)] = fun.uses_eqb
         self.done_methods[cspec.name].append(m)
         return text
 
@@ -1816,6 +2335,19 @@ class Unit:
             need.update(HELPER_DEPS.get(hname, []))
         return text + "".join("\n" + HELPERS[k] + "\n" for k in HELPERS if k in need)
 
+    def nodedict(self, name: str, tree: str, value: str, eqb: str):
+        """A local dictionary keyed by the nodes of the tree type `tree` (created by a display `{node: e}`, read with
+        `d[node]` -- KeyError when absent --, updated with `d[node] = e`): the list of its stores, newest first, keyed
+        by node identifiers compared with the Coq function `eqb`."""
+        if tree not in self.trees or name in RESERVED or name in self.extra_names():
+            self.abort(self.tree, f"dictionary type {name!r}: unknown tree type {tree!r} / name in use")
+        try:
+            self.nodedicts[name] = (tree, norm_type(value, self.extra_names()), eqb)
+        except ValueError as e:
+            self.abort(self.tree, f"unknown declared type {e.args[0]!r} for the values of {name}")
+        self.taken.add(eqb)
+
     def section_defs(self) -> str:
         """Definitions to place inside the Section, after its Context (they use `ltb`)."""
-        return (PY_MIN + "\n" if "py_min" in self.helpers else "") + (SET_DEFS if "set_add" in self.helpers else "")
+        return (PY_MIN + "\n" if "py_min" in self.helpers else "") + (SET_DEFS if "set_add" in self.helpers else "") \
+            + (SET_DEFS2 if "set_of_list" in self.helpers else "")
